@@ -949,6 +949,9 @@ func (w *Worker) step(st *State, f *Frame, ins ssa.Instruction) {
 		ds := f.defers
 		f.defers = nil
 		for i := len(ds) - 1; i >= 0; i-- {
+			if full := ds[i].fn.String(); full == "(*os.File).Close" {
+				continue // closing the script file: no effect in the process model
+			}
 			if len(ds[i].fn.Blocks) == 0 {
 				panic(engineErr("deferred call of an external function"))
 			}
